@@ -365,6 +365,21 @@ func runReuse(p prog) {
 		return opener.CreateReliableTube(tt)
 	}
 	var done [2]bool
+	// watchdog: Accept has no timeout, so an incarnation that is never offered would show as a bare
+	// deadlock; name it (with the faults) and stop the muxers so that everything returns
+	finished := false
+	vrt.Go(func() {
+		vrt.Sleep(180 * time.Second)
+		mu.Lock()
+		fin, d := finished, done
+		mu.Unlock()
+		if fin {
+			return
+		}
+		fail("after 180 virtual seconds the acceptor has finished %v of the two incarnations: a remotely opened tube was never offered to it (or never delivered / closed) (faults %v)", d, g.faultList())
+		g.m.Client.Stop()
+		g.m.Server.Stop()
+	})
 	wg.Add(2)
 	vrt.Go(func() { // opener: two incarnations, one after the other
 		defer wg.Done()
@@ -466,6 +481,7 @@ func runReuse(p prog) {
 	})
 	wg.Wait()
 	mu.Lock()
+	finished = true
 	o := fmt.Sprintf("ids=%v done=%v", ids, done)
 	mu.Unlock()
 	outcome(o)
@@ -729,7 +745,7 @@ func freeRun(bin, arg string) (fails []string, outcome string, err error) {
 }
 
 func classify(w string) string {
-	for _, k := range []string{"deadlock", "panic", "no longer delivers", "still holds", "same identifier", "wrong parity", "offered more than once", "bytes of another tube", "not one of the messages written", "delivered %d times", "created as", "tubes created", "the opener chose", "faithful link", "after its 32 bytes", "Write of a", "Accept", "accept", "create", "read", "write"} {
+	for _, k := range []string{"deadlock", "panic", "never offered", "no longer delivers", "still holds", "same identifier", "wrong parity", "offered more than once", "bytes of another tube", "not one of the messages written", "delivered %d times", "created as", "tubes created", "the opener chose", "faithful link", "after its 32 bytes", "Write of a", "Accept", "accept", "create", "read", "write"} {
 		if strings.Contains(w, k) {
 			return strings.ReplaceAll(k, " ", "-")
 		}
@@ -865,6 +881,9 @@ func main() {
 	traces := 0
 	outcomes := map[string]bool{}
 	for _, ph := range phases(r.Thorough()) {
+		if f := os.Getenv("VERIF_PHASE"); f != "" && !strings.Contains(ph.name, f) {
+			continue // debugging aid: run selected phases only
+		}
 		e := &vx.Explorer{Bounds: ph.bounds, Total: ph.total, Window: ph.window, MaxExec: 3000000, Deadline: r.Deadline}
 		var phExec int64
 		for i, p := range ph.progs {
